@@ -215,7 +215,13 @@ var helperRe = regexp.MustCompile(`func (With\w+)\(value string\) (\w+)(ClientOp
 func (it *Item) writeRunner(o AddOpts) error {
 	// the primary file: the first generated file with services
 	var pf *ir.File
+	if it.Req.Primary != "" {
+		pf = it.Req.FileByName(it.Req.Primary)
+	}
 	for _, g := range it.Req.Generate {
+		if pf != nil {
+			break
+		}
 		if f := it.Req.FileByName(g); f != nil && len(f.Services) > 0 {
 			pf = f
 			break
@@ -312,7 +318,7 @@ func (it *Item) writeRunner(o AddOpts) error {
 				fmt.Fprintf(&b, "\t\t\tfor _, h := range o.DefaultHeaders {\n\t\t\t\tcopts = append(copts, %s.With%sDefaultHeader(h[0], h[1]))\n\t\t\t}\n", pfAlias, sn)
 				fmt.Fprintf(&b, "\t\t\tvar call []%s.%sCallOption\n", pfAlias, sn)
 				fmt.Fprintf(&b, "\t\t\tif o.CallCT != \"\" {\n\t\t\t\tcall = append(call, %s.With%sCallContentType(o.CallCT))\n\t\t\t}\n", pfAlias, sn)
-				fmt.Fprintf(&b, "\t\t\tfor _, h := range o.CallHeaders {\n\t\t\t\tcall = append(call, %s.With%sHeader(h[0], h[1]))\n\t\t\t}\n", pfAlias, sn)
+				fmt.Fprintf(&b, "\t\t\tfor _, h := range o.CallHeaders {\n\t\t\t\th := h\n\t\t\t\tcall = append(call, rtSharedOpt(o, %q+h[0]+\"\\x00\"+h[1], func() any { return %s.With%sHeader(h[0], h[1]) }).(%s.%sCallOption))\n\t\t\t}\n", sn+"\x00", pfAlias, sn, pfAlias, sn)
 				b.WriteString("\t\t\tfor _, h := range o.HelperDefault {\n\t\t\t\tswitch h[0] {\n")
 				seenH := map[string]bool{}
 				for _, h := range helpers[sn] {
